@@ -279,6 +279,11 @@ ORDERS = ["[self._mutations, *self._layers]", "(self._mutations, *self._layers)"
           "itertools.chain((self._mutations,), self._layers)"]
 
 
+# the keys of all layers, top layer first, as one stream
+CHAINS = ["itertools.chain(self._mutations, *self._layers)", "itertools.chain.from_iterable([self._mutations, *self._layers])",
+          "itertools.chain(*[self._mutations, *self._layers])"]
+
+
 def r3(ctx, rule="C19.R3"):
     P = ctx.project
     C = P.cls(LM)
@@ -292,7 +297,7 @@ def r3(ctx, rule="C19.R3"):
             raise AnalysisError(f"{rule}: {name} cannot be summarised: {e}")
     for name, m in (("__getitem__", gi), ("__iter__", it)):
         heads = [l._sym_head for o in summ[name] for l in o.loops[:1]]
-        ok = bool(heads) and all(sym.pm_any(ORDERS, h) is not None for h in heads)
+        ok = bool(heads) and all(sym.pm_any(ORDERS + (CHAINS if name == "__iter__" else []), h) is not None for h in heads)
         ctx.check(ok, rule, f"{name} searches the private layer first, then the layers in order", m.where, ctx.construct(m, text="search order"),
                   f"iterates `{norm(heads[0]) if heads else None}`; expected {ORDERS[0]}")
     key = param_names(gi.node)[1]
@@ -306,13 +311,17 @@ def r3(ctx, rule="C19.R3"):
     ctx.check(bool(tail) and all(o.kind == "raise" and "KeyError" in norm(o.value) for o in tail), rule, "__getitem__ raises KeyError for a missing key", gi.where,
               ctx.construct(gi, text="KeyError"), f"missing keys must raise KeyError; found {tail}")
     ys = [o for o in summ["__iter__"] if o.kind == "yield"]
-    ok = len(ys) == 1 and len(ys[0].loops) == 2 and len(ys[0].conds) == 1 and ys[0].conds[0][1] is False
+    ok = len(ys) == 1 and len(ys[0].loops) in (1, 2) and len(ys[0].conds) == 1 and ys[0].conds[0][1] is False
     if ok:
         o = ys[0]
-        outer, inner = o.loops[0]._sym_orig, o.loops[1]._sym_orig
+        inner = o.loops[-1]._sym_orig
         k = norm(inner.target)
         b = sym.pm(f"{k} in VAR_seen", o.conds[0][0])
-        ok = b is not None and norm(inner.iter) == norm(outer.target) and norm(o.value) == k and \
+        if len(o.loops) == 2:   # for layer in <order>: for key in layer
+            nest_ok = norm(inner.iter) == norm(o.loops[0]._sym_orig.target)
+        else:                   # for key in itertools.chain(<order>)
+            nest_ok = sym.pm_any(CHAINS, o.loops[0]._sym_head) is not None
+        ok = b is not None and nest_ok and norm(o.value) == k and \
             any(sym.pm(f"{b['VAR_seen']}.add({k})", e) is not None for e in o.effects)
     ctx.check(ok, rule, "__iter__ yields each key once (top layer's occurrence)", it.where, ctx.construct(it, text="dedupe"),
               f"deduplicating iteration expected (yield a key only if unseen, and record it as seen); found {ys}")
